@@ -524,11 +524,11 @@ def _twin_call(fns, entry, subject, original, other):
     return run_op(fns[name], x, y, a)
 
 
-def same_answer(cls, name, res, base, alphabet, reference) -> bool:
+def same_answer(cls, name, res, base, alphabet, reference, base_key=None) -> bool:
     """Two outcomes of one call — on a twin and on its original: same exception class, or the same value
     (literally; automata / regexes up to generated names; listings whose order the documentation does not fix
     as sets; random_word: any word of that length in the language)."""
-    if outcome_key(res) == outcome_key(base):
+    if outcome_key(res) == (base_key if base_key is not None else outcome_key(base)):
         return True
     if res[0] != base[0] or res[0] == "err":
         return False
@@ -569,6 +569,11 @@ def restored_case(ctx: Ctx, cls: str, kw, kw2, sv: bool, am: bool, rng, origin: 
         plan = twin_plan(rng, cls, alphabet, other is not None)
     fns = dict(M.unary_ops(cls) + M.binary_ops(cls))
     chosen = [m for m in twin_makers() if makers is None or m[0] in makers]
+    if makers is None and not ctx.thorough():
+        # quick tier: two of the pickle protocols per case (all of them over the run), every other maker
+        pk = [m for m in chosen if m[0].startswith("pickle round trip (protocol")]
+        keep = set(h for h, _ in rng.sample(pk, 2))
+        chosen = [m for m in chosen if m not in pk or m[0] in keep]
     if used_before is None:
         early = {how for how, _ in chosen if rng.random() < 0.5}
     else:
@@ -579,6 +584,7 @@ def restored_case(ctx: Ctx, cls: str, kw, kw2, sv: bool, am: bool, rng, origin: 
             if how in early:
                 twins[how] = run_op(mk, obj)
         base = [_twin_call(fns, e, obj, obj, other) for e in plan]
+        bkeys = [outcome_key(b) for b in base]
         attrs = public_attributes(obj)
         for how, mk in chosen:
             if how not in twins:
@@ -627,7 +633,7 @@ def restored_case(ctx: Ctx, cls: str, kw, kw2, sv: bool, am: bool, rng, origin: 
                 res = _twin_call(fns, e, twin, obj, other)
             ctx.stat("restored:calls")
             rp = dict(rp0, trace=list(trace))
-            if not same_answer(cls, name, res, base[i], alphabet, obj):
+            if not same_answer(cls, name, res, base[i], alphabet, obj, bkeys[i]):
                 what = name + (f" [{e[3]}]" if e[3] else "")
                 det = (f"raises {type(res[1]).__name__}: {str(res[1])[:100]}" if res[0] == "err"
                        else f"answers {res[1]!r:.80}")
@@ -942,7 +948,7 @@ def run(ctx: Ctx):
     degenerate_family(ctx, rng)
     for _ in range(ctx.budget(6, 60)):
         temporaries_probe(ctx, rng)
-    restored_family(ctx, rng, ctx.budget(10, 120))
+    restored_family(ctx, rng, ctx.budget(12, 120))
     lookalike_options_family(ctx, rng, ctx.budget(8, 100))
 
     # 1. bounded-exhaustive over (operator, position) on a few definitions per class
